@@ -1,7 +1,7 @@
 //! C10 — CoreDID / DIDUrl parsing, setters, join, Eq/Ord/Hash.
 //! kinds: 1 CoreDID::parse(bytes)  2 DIDUrl::parse(bytes)  3 DIDUrl setter (start, op 0 path|1 query|2 fragment, flag, value)
 //!        4 CoreDID setter (start, op 0 method name|1 method id, value)  5 join (start, segment) — oracle only
-//!        6 Eq/Ord/Hash of two DID URLs — oracle only
+//!        6 Eq/Ord/Hash of two DID URLs — oracle only   7 every construction route of a CoreDID / DIDUrl from one string
 use crate::common::*;
 use identity_did::{CoreDID, DIDUrl, DID};
 use std::collections::hash_map::DefaultHasher;
@@ -185,6 +185,39 @@ pub fn exec(case: &[i64]) -> Outcome {
       let mut all = a.into_bytes(); all.extend(b.bytes());
       classes(&all, o)
     }
+    7 => {
+      // every route to a CoreDID / DIDUrl from one string: parse, FromStr, TryFrom<&str>, TryFrom<String>, TryFrom<BaseDIDUrl>, serde, the DID inside a DIDUrl;
+      // DIDUrl::parse, FromStr, TryFrom<String>, serde, CoreDID::to_url, CoreDID::into_url
+      use std::str::FromStr;
+      let bytes = take_bytes(&mut v).unwrap();
+      let s = match String::from_utf8(bytes.clone()) { Ok(s) => s, Err(_) => return Outcome::new(vec![0]).class("not-utf8").trivial() };
+      // each route under its own catch_unwind: Err(()) = that route panicked
+      fn g<T>(f: impl FnOnce() -> Option<T> + std::panic::UnwindSafe) -> Result<Option<T>, ()> { std::panic::catch_unwind(f).map_err(|_| ()) }
+      let (s1, s2, s3, s4, s5, s6, s7) = (s.clone(), s.clone(), s.clone(), s.clone(), s.clone(), s.clone(), s.clone());
+      let dids: Vec<Result<Option<CoreDID>, ()>> = vec![g(move || CoreDID::parse(&s1).ok()), g(move || CoreDID::from_str(&s2).ok()), g(move || CoreDID::try_from(s3.as_str()).ok()), g(move || CoreDID::try_from(s4).ok()),
+        g(move || identity_did::BaseDIDUrl::parse(&s5).ok().and_then(|b| CoreDID::try_from(b).ok())), g(move || serde_json::from_value::<CoreDID>(serde_json::Value::String(s6)).ok()),
+        g(move || DIDUrl::parse(&s7).ok().map(|u| u.did().clone()))];
+      let (t1, t2, t3, t4, t5, t6) = (s.clone(), s.clone(), s.clone(), s.clone(), s.clone(), s.clone());
+      let urls: Vec<Result<Option<DIDUrl>, ()>> = vec![g(move || DIDUrl::parse(&t1).ok()), g(move || DIDUrl::from_str(&t2).ok()), g(move || DIDUrl::try_from(t3).ok()), g(move || serde_json::from_value::<DIDUrl>(serde_json::Value::String(t4)).ok()),
+        g(move || CoreDID::parse(&t5).ok().map(|d| d.to_url())), g(move || CoreDID::parse(&t6).ok().map(|d| d.into_url()))];
+      let mut obs = vec![]; let mut why: Option<String> = None;
+      for (k, d) in dids.iter().enumerate() { match d { Err(()) => { obs.push(-777); why.get_or_insert(format!("DID route {k} panics")); } Ok(None) => obs.push(0), Ok(Some(d)) => { obs.push(1); put_bytes(&mut obs, d.as_str().as_bytes());
+        let d2 = d.clone(); let sc = s.clone();
+        let w = std::panic::catch_unwind(move || { let d = &d2; let s = &sc;
+          if format!("did:{}:{}", d.method(), d.method_id()) != d.as_str() { return Some("components do not re-concatenate to the string form".to_string()); }
+          if d.as_str().contains(|c| c == '/' || c == '?' || c == '#') { return Some("plain DID carries a path, query or fragment".into()); }
+          if k != 6 && d.as_str() != s { return Some("string form is not the accepted input".into()); }
+          if CoreDID::parse(d.as_str()).ok().as_ref() != Some(d) { return Some("value does not re-parse to itself".into()); }
+          url_checks(&d.to_url(), None) }).unwrap_or(Some("an accessor of the accepted value panics".into()));
+        if let Some(w) = w { why.get_or_insert(format!("DID route {k}: {w}")); } } } }
+      for (k, u) in urls.iter().enumerate() { match u { Err(()) => { obs.push(-777); why.get_or_insert(format!("URL route {k} panics")); } Ok(None) => obs.push(0), Ok(Some(u)) => { obs.push(1);
+        let u2 = u.clone(); let sc = s.clone();
+        match std::panic::catch_unwind(move || (u2.to_string(), url_checks(&u2, Some(&sc)))) { Ok((txt, w)) => { put_bytes(&mut obs, txt.as_bytes()); if let Some(w) = w { why.get_or_insert(format!("URL route {k}: {w}")); } } Err(_) => { obs.push(-777); why.get_or_insert(format!("URL route {k}: an accessor of the accepted value panics")); } } } } }
+      let dids: Vec<Option<CoreDID>> = dids.into_iter().map(|d| d.ok().flatten()).collect(); let urls: Vec<Option<DIDUrl>> = urls.into_iter().map(|u| u.ok().flatten()).collect();
+      let mut o = classes(&bytes, Outcome::new(obs).class(if dids.iter().any(|d| d.is_some()) || urls.iter().any(|u| u.is_some()) { "routes-ok" } else { "routes-err" }));
+      if colon_tail(&s) && o.known.is_none() { o = o.known("K_colon_tail"); }
+      match why { Some(w) => o.fail(&w), None => o }
+    }
     _ => Outcome::new(vec![-998]).fail("bad case kind"),
   }
 }
@@ -208,6 +241,8 @@ pub fn gen(rng: &mut Rng, thorough: bool, sink: &mut Sink) {
     sink.case(bcase(1, full.as_bytes()), "exh-did");
     sink.case(bcase(2, full.as_bytes()), "exh-url");
   }
+  // every construction route on the same exhaustive strings (shorter depth) and on the shifted-offset rows
+  { let mut sh: Vec<String> = Vec::new(); strings(&alpha, 3, &mut String::new(), &mut |s| sh.push(s.to_string())); for s in &sh { sink.case(bcase(7, format!("did:m:{}", s).as_bytes()), "exh-routes"); } }
   let mut short: Vec<String> = Vec::new();
   strings(&alpha, 3, &mut String::new(), &mut |s| short.push(s.to_string()));
   for s in &short { let full = format!("did:{}", s); sink.case(bcase(1, full.as_bytes()), "exh-did-method"); sink.case(bcase(2, full.as_bytes()), "exh-url-method"); }
@@ -221,11 +256,11 @@ pub fn gen(rng: &mut Rng, thorough: bool, sink: &mut Sink) {
   for base in ["did:a:b", "did:a:b?q", "did:ab:c?q", "did:abc:d?x=1", "did:a:b?q#f", "did:a:b#f", "did:a:b/p", "did:a:b/p?q", "did:a:bcd?q", "did:a:b:c?q"] {
     for w in [" ", "\t", "\u{0}"] { for k in 1..6usize { for (pre, suf) in [(k, 0usize), (0, k), (k, 1)] {
       let full = format!("{}{}{}", w.repeat(pre), base, w.repeat(suf));
-      sink.case(bcase(1, full.as_bytes()), "whitespace-shift"); sink.case(bcase(2, full.as_bytes()), "whitespace-shift");
+      sink.case(bcase(1, full.as_bytes()), "whitespace-shift"); sink.case(bcase(2, full.as_bytes()), "whitespace-shift"); sink.case(bcase(7, full.as_bytes()), "whitespace-shift-routes");
     } } }
   }
   for s in ["", "d", "did", "did:", "did::", "did:a", "did:a:", "DID:a:b", "dad:a:b", "did:A:b", "did:a:b:c:d", "did:a:b/", "did:a:b?", "did:a:b#", "did:a:b???", "did:a:b/p?q#f", "did:a:b/%41", "did:a:b?%41", "did:a:b#%41", "did:a:%41", "did:a:%4", "did:a:%+1", "did:a:%+1x", "did:a:b%41", "did:a:%41%42x", "did:a:%41%4", "did:m:x/%aa?q", "did:a:b/../c", "did:a:b//", "did:a:b#a#b", "did:a:b?a?b"] {
-    sink.case(bcase(1, s.as_bytes()), "table"); sink.case(bcase(2, s.as_bytes()), "table");
+    sink.case(bcase(1, s.as_bytes()), "table"); sink.case(bcase(2, s.as_bytes()), "table"); sink.case(bcase(7, s.as_bytes()), "table-routes");
   }
   // (b) random longer strings from a DID-URL grammar with mutation
   let id_chars: Vec<char> = "abzAZ09.-_:".chars().collect();
@@ -245,8 +280,8 @@ pub fn gen(rng: &mut Rng, thorough: bool, sink: &mut Sink) {
       if let Ok(m) = String::from_utf8(b) { s = m; }
     }
     if rng.chance(1, 10) { let k = rng.range(1, 5) as usize; s = format!("{}{}", " ".repeat(k), s); }
-    sink.case(bcase(1, s.as_bytes()), "random"); sink.case(bcase(2, s.as_bytes()), "random");
-    if valid_pool.len() < 40 && DIDUrl::parse(&s).is_ok() && !s.contains('%') { valid_pool.push(s); }
+    sink.case(bcase(1, s.as_bytes()), "random"); sink.case(bcase(2, s.as_bytes()), "random"); if rng.chance(1, 4) { sink.case(bcase(7, s.as_bytes()), "random-routes"); }
+    if valid_pool.len() < 40 && !s.contains('%') && DIDUrl::parse(&s).is_ok() { valid_pool.push(s); }
   }
   // (c) setters and join over a pool of values x a pool of segments
   let starts = ["did:a:b", "did:a:b/p", "did:a:b?q", "did:a:b#f", "did:example:123/p/q?x=1&y=2#frag", "did:a:b:c/p?q?#f?"];
